@@ -52,19 +52,19 @@ func checkJ34(c *Ctx, jr *joinRoles) {
 		if st == "stopped" {
 			return nil
 		}
-		if p.isReset(in) {
+		if p.isResetFr(fr, in) {
 			if st == "clean" {
 				p4 = append(p4, "buffer is reset at "+p.InstrPos(in)+" on a path where it was not sent: accumulated elements are discarded ["+fr.Chain(p)+"]")
 			}
 			return []string{"clean"}
 		}
-		if _, ok := p.ingestOf(in); ok {
+		if _, ok := p.ingestOfFr(fr, in); ok {
 			if st == "emitted" {
 				p4 = append(p4, "element ingested at "+p.InstrPos(in)+" after the buffer was sent and before it was reset: it is dropped by the reset (and modifies the delivered slice) ["+fr.Chain(p)+"]")
 			}
 			return nil
 		}
-		if st2, ok := fieldStore(in, "join"); ok {
+		if st2, ok := p.fieldStoreFr(fr, in, "join"); ok {
 			_ = st2
 			p4 = append(p4, "UNDECIDED: write to the buffer at "+p.InstrPos(in)+" is neither an ingest nor a reset")
 		}
